@@ -352,16 +352,33 @@ def cli_case(case0, env):
         with open(os.path.join(T, *case["git_at"], ".git", "info", "exclude"), "w") as f:
             f.write("\n".join(case["rules"]["exclude"]) + "\n")
         case["tree"]["/".join(case["git_at"] + [".git", "info", "exclude"])] = "f"
-    if case["rules"].get("global"):
-        gd = os.path.join(env.home, ".config", "git")
-        os.makedirs(gd, exist_ok=True)
-        with open(os.path.join(gd, "ignore"), "w") as f:
-            f.write("\n".join(case["rules"]["global"]) + "\n")
-    else:
+    # the global git ignore file, designated in one of the documented ways:
+    # the default $XDG_CONFIG_HOME/git/ignore, core.excludesFile in
+    # ~/.gitconfig, or core.excludesFile in $XDG_CONFIG_HOME/git/config with a
+    # ~/.gitconfig that is absent / present without that key
+    gd = os.path.join(env.home, ".config", "git")
+    for stale in (os.path.join(gd, "ignore"), os.path.join(gd, "config"), os.path.join(env.home, ".gitconfig"),
+                  os.path.join(env.home, "my-global-ignore")):
         try:
-            os.unlink(os.path.join(env.home, ".config", "git", "ignore"))
+            os.unlink(stale)
         except OSError:
             pass
+    if case["rules"].get("global"):
+        os.makedirs(gd, exist_ok=True)
+        how = rng.below(4)
+        env.count("global_ignore_designation_%d" % how)
+        target = os.path.join(gd, "ignore") if how == 0 else os.path.join(env.home, "my-global-ignore")
+        with open(target, "w") as f:
+            f.write("\n".join(case["rules"]["global"]) + "\n")
+        if how == 1:
+            with open(os.path.join(env.home, ".gitconfig"), "w") as f:
+                f.write("[user]\n\tname = x\n[core]\n\texcludesFile = %s\n" % target)
+        elif how in (2, 3):
+            with open(os.path.join(gd, "config"), "w") as f:
+                f.write("[core]\n\texcludesFile = %s\n" % target)
+            if how == 3:
+                with open(os.path.join(env.home, ".gitconfig"), "w") as f:
+                    f.write("[user]\n\tname = x\n\temail = x@example.org\n")
     argv = ["--files", "--no-config", "-j1", "--null"] + case["flags"]
     if case["rules"].get("explicit"):
         ef = os.path.join(env.tmp, "explicit.ign")
